@@ -51,7 +51,10 @@ func genHistory(t *Tape, sizes []int, withCache bool, maxOps int) []ROp {
 	if t.Chance("work", 4, 5) {
 		// most histories use one implementation, so that a defect of one
 		// does not hide the others
-		k := cacheKinds[t.Draw("work", 3)]
+		// FIFO carries an open known finding (F2): it gets a smaller share so
+		// that most of the budget explores the implementations that can
+		// still surprise
+		k := []string{"lru", "random", "lru", "random", "lru", "fifo"}[t.Draw("work", 6)]
 		cacheKinds = []string{k, k, k, k + "+stats", k + "+stats", k + "+stats", ""}
 	}
 	if withCache && t.Chance("work", 3, 4) {
